@@ -33,11 +33,30 @@ def make_table(seed: int, n: int, order_seed: int | None = None, missing_plan=No
     return pd.DataFrame({c: cols[c] for c in names})
 
 
+# bounds declared for the free parameters of the current session (name -> [lower, upper]); set by the session (one
+# process per session). A starting value may lie outside its own bounds: evaluation takes the value as it is.
+CURRENT_BOUNDS = {}
+
+
+def gen_bounds(rng):
+    out = {}
+    for nm in BETAS:
+        if nm.startswith('bf') or rng.random() < 0.6:
+            continue
+        v = BETA_VALUES[nm]
+        kind = rng.choice(['inside', 'inside', 'upper_only', 'lower_only', 'outside_low', 'outside_high', 'at_bound'])
+        out[nm] = {'inside': [v - 1.0, v + 1.0], 'upper_only': [None, v + 2.0], 'lower_only': [v - 2.0, None],
+                   'outside_low': [v + 0.5, v + 2.0], 'outside_high': [v - 3.0, v - 0.25], 'at_bound': [v, v + 1.0]}[kind]
+    return out
+
+
 def beta_specs(values=None):
     v = dict(BETA_VALUES)
     if values:
         v.update(values)
-    return {nm: (v[nm], None, None, 1 if nm.startswith('bf') else 0) for nm in BETAS}
+    bd = CURRENT_BOUNDS or {}
+    return {nm: (v[nm], bd.get(nm, [None, None])[0], bd.get(nm, [None, None])[1], 1 if nm.startswith('bf') else 0)
+            for nm in BETAS}
 
 
 class Gen:
@@ -106,7 +125,23 @@ class Gen:
             keys = [1, 2, 3]
             return ['elem', {str(kk): s(depth - 1) for kk in keys}, ['var', 'ch']]
         if k == 'condsum':
-            return ['condsum', [[self.boolean(depth - 1), s(depth - 1)] for _ in range(rng.randrange(1, 4))]]
+            # conditions: comparisons, 0/1 columns used as they are, plain numbers, shared sub-formulas - and the SAME
+            # condition for several terms (one object governing several terms)
+            conds = []
+            for _ in range(rng.randrange(1, 4)):
+                r = rng.random()
+                booleans = [i for i, p_ in enumerate(self.pool) if p_[0] in ('==', '!=', '<', '<=', '>', '>=', 'and', 'or', 'in')]
+                if conds and r < 0.3:
+                    conds.append(conds[rng.randrange(len(conds))])
+                elif r < 0.45:
+                    conds.append(['var', rng.choice(['av1', 'av2', 'av3'])])
+                elif r < 0.55:
+                    conds.append(['num', rng.choice([1.0, 1.0, 0.0])])
+                elif r < 0.65 and self.allow_refs and booleans:
+                    conds.append(['ref', rng.choice(booleans)])
+                else:
+                    conds.append(self.boolean(depth - 1))
+            return ['condsum', [[c_, s(depth - 1)] for c_ in conds]]
         if k == 'multsum':
             return ['multsum', [s(depth - 1) for _ in range(rng.randrange(1, 5))]]
         if k == 'linutil':
